@@ -205,6 +205,9 @@ func RunScenario(t *testing.T, sc *Scenario) *Outcome {
 			defer packets.SetVerifHooks(nil)
 			ctx, cancel := context.WithCancel(context.Background())
 			defer cancel()
+			if sc.CancelAtUs < 0 {
+				cancel() // already cancelled when the run starts
+			}
 			if sc.CancelAtUs > 0 {
 				go func() {
 					select {
